@@ -29,6 +29,10 @@ def key(op, impl, M, S):
     if body.startswith("c10shape"):
         return "shape:" + body.split(" ")[1]
     if impl.startswith("panic"): return "panic"
+    if "?history-dependent" in impl:
+        # judged on the implementation alone: the same chain built in one go and built with a parse after every
+        # prefix (history=parse-after-every-prefix) gave different observations
+        return "history-dependent:" + ("string" if body.startswith("c10 ") else "universal")
     reason = S[len("spec-rejects:"):] if (S or "").startswith("spec-rejects:") else "observation-differs"
     if "Int.Pipe(" in how:
         # the directed family: a Pipe built with ZodIntegerTyped.Pipe (hands the target an int64 copy)
@@ -52,6 +56,9 @@ def describe(op):
             "T = .Transform, P = .Pipe; input hex (trailing * = passed as *string). c10u lines: B <tag> <kind> … with kind s/i/l/o = String / Int / Slice[int](Int()) / "
             "Object{a: Int, b: Int}; checks igte/ilte/igt/ilt/imul n = Gte|Min/Lte|Max/Gt/Lt/MultipleOf, lmin/lmax/llen n = Min/Max/Length, ref k abort when = Refine/RefineAny "
             "with CustomParams, chk k abort when = Check(fn pushing issueCount k issues), ow k = Overwrite(custom k); values i<int> l<ints> o<a>:<b>; the schema names are in the op comment. "
+            "Comment 'history=parse-after-every-prefix': the chain is built step by step and every prefix (String(), then each schema a check / overwrite / refinement returned, "
+            "then every inner Transform / Pipe stage) is PARSED (the case's input by value / by pointer, other values, a float, nil) before the next step is attached to it; "
+            "'?history-dependent' = that build and the build in one go gave different observations on the same input. "
             "c10shape <func>: go/ast statement skeleton of internal/engine/{checker,parser}.go vs lean/Gozod/Model/ChecksShape.lean")
 
 GEN_RAW = os.path.join(C.LEAN, "Gozod", "Gen", "RawClass.lean")
